@@ -4,6 +4,10 @@ import json, sys
 props=[json.loads(l)['id'] for l in open('/verif/properties.jsonl')]
 TECH="bounded symbolic execution of the real go/ssa code; every branch, panic guard and assertion decided by SMT (z3, cross-checked with z3 5.1 and cvc5); counterexamples replayed natively"
 CHECKS={
+ "C01": dict(
+   text="Bounded model checking by symbolic execution of a serializer-first round trip: message components (tags, source, verb, middles, gaps, trailing, CTCP verb/text) are solver variables constrained only by RFC 2812 / IRCv3 well-formedness; a reference serializer builds the wire text, the real ParseLine / parseUserHost / Text / Target / Public (go/ssa of the working tree) are executed on it symbolically, and every field comparison is an SMT validity query. Holds for all component values within the size bounds; sat answers are replayed natively.",
+   ref="DESIGN.md §4 C01",
+   note="Bounds: see evidence.bounds (quick: <=1 tag, 1-byte source parts, <=2 middles, trailing <=2 B; thorough: <=2 tags, <=3 middles, trailing <=4 B). ASCII only. Trusted: go/ssa, interpreter semantics, ASCII models of strings.*, z3."),
  "C02": dict(
    text="Bounded model checking by symbolic execution: ParseLine, parseUserHost and Line.Text/Target/Public are executed from the go/ssa of /repo's working tree on a string whose every byte is a solver variable; every index, slice-bound and nil guard is an SMT query, so 'no panic' is decided for ALL ASCII strings up to the length bound (and after 11 verb-spelling prefixes), not for samples. A sat answer is turned into a concrete line and replayed against the compiled code before it is reported.",
    ref="DESIGN.md §4 C02",
